@@ -3,44 +3,8 @@ C12 helper lemmas: bracket expressions with a plain body, on both sides — the 
 scanner (`parseClassM`, any trailing text) and the grammar of the specification (`pClass`) — so that
 the class side condition of the translation theorem is discharged for them.
 -/
-import EPV.Lemmas.RegexScanner
-import EPV.Lemmas.RegexTranslate
+import EPV.Lemmas.RegexClassGrammar
 namespace EPV.Regex
-
-/-- the class built by the model from a plain body -/
-def plainCC (body : List Ch) : CC := CC.new.addItem ⟨false, .ranges (ones body).reverse⟩
-
-theorem plainCC_contains (body : List Ch) (x : Nat) : (plainCC body).contains x = decide (x ∈ body) := by
-  simp [plainCC, CC.addItem, CC.new, CC.contains, none_isEmpty, SetE.mem, none_mem, memR_ones]
-
-/-- `parse_character_class` on `body ]tail` with a plain body: the class of the body, and `tail` is left -/
-theorem parseClassM_plain (T : MTables) (v10 : Bool) (body tail : List Ch) (hne : body ≠ [])
-    (hp : ∀ c ∈ body, Plain c) (h0 : body.head? ≠ some 94) (fuel : Nat) :
-    parseClassM T v10 (fuel + 1) (body ++ 93 :: tail) = some (plainCC body, tail) := by
-  have h45 : ∀ c ∈ body, c ≠ 45 := fun c hc => (hp c hc).2.1
-  have hb92 : ∀ c ∈ body, c ≠ 92 := fun c hc => (hp c hc).1
-  have hscan := scanGroup_plain body tail hp []
-  have hhead : body.head? ≠ some 92 := by
-    cases body with
-    | nil => simp
-    | cons c r => simpa using (hp c List.mem_cons_self).1
-  have hmk : mkClass T body = some (plainCC body) := by
-    unfold mkClass plainCC
-    rw [reSplit_plain body hb92 _ (Nat.le_succ _)]
-    simp [List.foldlM, addPart_plain T CC.new body hhead, parseSubset_plain body hp hne]
-  cases body with
-  | nil => exact absurd rfl hne
-  | cons c r =>
-    have hc94 : c ≠ 94 := by simpa using h0
-    rw [parseClassM]
-    case x_3 =>
-      intro rest heq
-      simp only [List.cons_append, List.cons.injEq] at heq
-      exact hc94 heq.1
-    simp only [List.cons_append, List.reverse_nil, List.nil_append] at hscan ⊢
-    rw [hscan]
-    simp [noDoubleHyphen (c :: r) h45 none, noInvalidHyphen (c :: r) h45, hmk]
-
 
 theorem pSingleChar_plain (o : Opts) (c : Nat) (rest : List Ch) (hp : Plain c) :
     pSingleChar o (c :: rest) = some (c, false, rest) := by
@@ -126,18 +90,12 @@ theorem toClassE_plain (T : Tables) (body : List Ch) :
     | cons c r ih => simp [List.mapM_cons, CItem.toItem, ih]
   simp [this]
 
-theorem single_mem (c x : Nat) : (SetE.single c).mem x = decide (x = c) := by
-  simp only [SetE.single, SetE.mem, memR, List.any_cons, List.any_nil, Bool.or_false]
-  by_cases hx : x = c
-  · subst hx; simp
-  · have h1 : (decide (c ≤ x) && decide (x < c + 1)) = false := by
-      apply Bool.eq_false_iff.2
-      intro hh
-      have := (Bool.and_eq_true _ _).mp hh
-      have h3 : @LE.le Nat _ c x := of_decide_eq_true this.1
-      have h4 : @LT.lt Nat _ x (c + 1) := of_decide_eq_true this.2
-      omega
-    rw [h1]; simp [hx]
+theorem single_mem_dec (c x : Nat) : (SetE.single c).mem x = decide (x = c) := by
+  cases h : (SetE.single c).mem x with
+  | true => exact (decide_eq_true ((single_mem c x).1 h)).symm
+  | false =>
+    have : ¬ x = c := fun hx => by rw [(single_mem c x).2 hx] at h; cases h
+    exact (decide_eq_false this).symm
 
 theorem specClass_plain (body : List Ch) (x : Nat) :
     specClass (.plain false (body.map fun c => ⟨false, .single c⟩)) x = decide (x ∈ body) := by
@@ -146,7 +104,17 @@ theorem specClass_plain (body : List Ch) (x : Nat) :
   | nil => simp
   | cons c r ih =>
     rw [List.map_cons, List.any_cons, ih]
-    simp [Item.mem, single_mem]
+    simp [Item.mem, single_mem_dec]
+
+/-- plain bodies are well-formed groups of the grammar theorem -/
+theorem plain_groupWF (v10 : Bool) (body : List Ch) (hne : body ≠ []) (hp : ∀ c ∈ body, Plain c) (h0 : body.head? ≠ some 94) :
+    GroupWF v10 false [.lit body (body.map EPV.USet.CP.one)] := by
+  have h45 : ∀ c ∈ body, c ≠ 45 := fun c hc => (hp c hc).2.1
+  have hok : SegsOK false none [.lit body (body.map EPV.USet.CP.one)] :=
+    ⟨hne, fun c hc => ⟨(hp c hc).1, (hp c hc).2.2.1, (hp c hc).2.2.2⟩, strictGroup_plain body hne hp,
+      (fun h => Bool.noConfusion h), trivial, trivial⟩
+  refine ⟨by simp, hok, fun _ => by simpa [renderSegs, Seg.text] using h0, ?_⟩
+  simp [translatorChecks, renderSegs, Seg.text, noDoubleHyphen body h45 none, noInvalidHyphen body h45]
 
 /-- For a bracket expression with a plain body the class side condition of the translation theorem
 holds: the class scanner agrees with the XSD reading (whatever text follows the `]`). -/
@@ -160,8 +128,21 @@ theorem stepOK_class_plain (Tm : MTables) (T : Tables) (v10 atStart : Bool) (nes
     pClass_plain body tail hne hp h0 _ hlen] at hpc
   simp only [Option.some.injEq, Prod.mk.injEq] at hpc
   obtain ⟨rfl, rfl, _⟩ := hpc
-  refine ⟨plainCC body, _, parseClassM_plain Tm v10 body tail hne hp h0 _, toClassE_plain T body, ?_⟩
-  intro x _
-  rw [plainCC_contains, specClass_plain]
+  obtain ⟨cc, hparse, _, hcc⟩ := parseClassM_grammar Tm v10 (.plain false [.lit body (body.map EPV.USet.CP.one)])
+    (plain_groupWF v10 body hne hp h0) ((body ++ 93 :: tail).length + 1) tail (by simp [GClass.depth])
+  have htxt : (GClass.plain false [.lit body (body.map EPV.USet.CP.one)]).render ++ tail = body ++ 93 :: tail := by
+    simp [GClass.render, caret, renderSegs, Seg.text]
+  rw [htxt] at hparse
+  refine ⟨cc, _, hparse, toClassE_plain T body, ?_⟩
+  intro x hx
+  rw [specClass_plain]
+  have h := hcc x hx
+  simp only [GClass.Den, Bool.false_eq_true, if_false, SegsDen, List.mem_cons, List.not_mem_nil, or_false,
+    exists_eq_left, memL_ones] at h
+  cases hc : cc.contains x with
+  | true => exact (decide_eq_true (h.1 hc)).symm
+  | false =>
+    have : ¬ x ∈ body := fun hx' => by rw [h.2 hx'] at hc; cases hc
+    exact (decide_eq_false this).symm
 
 end EPV.Regex
